@@ -15,6 +15,7 @@ class Prop(BaseProp):
         "f32 comparisons of DefragPrevention are modelled with exact rationals (argued exact for < 2^24 chunks per window)",
     ]
     assumptions = [
+        "theorem hypotheses (StoreOk): no two xorbs of the store share a hash with different contents, no non-empty xorb hashes to zero, the first 8 bytes of distinct chunk hashes differ (the model keys the deduper's lookup by them), chunks are non-empty, every xorb the run uploads or registers is in the store, the data interface answers only with xorbs of the store (TableOk) and no xorb reaches 4 GiB",
         "global dedup queries do not add shards during a process_chunks call (single pass), as with the scripted interface",
     ]
     rule = ("stream dd: files as chunk-id sequences (fresh, repeated, external, fragmented alternation that triggers fragmentation prevention, tiny, empty) over scripted external xorbs, "
